@@ -440,10 +440,18 @@ def _r5(ctx, pkg):
         # (entry points); for a helper called only from inside, a parameter is an input only if some call site passes an input
         # (or an alias of one) -- a helper that fills lists its caller has just created does not touch the network.
         callsites = {}
+        quals = {q for q, _ in funcs}
+        # module-level functions whose name is not also a method's (a bare call then names that function) and is never handed around as a value
+        modfuncs = {q for q in quals if "." not in q and sum(1 for q2 in quals if q2.split(".")[-1] == q) == 1}
         for q, fn in funcs:
             for c in ast.walk(fn):
                 if isinstance(c, ast.Call) and isinstance(c.func, ast.Attribute) and isinstance(c.func.value, ast.Name) and c.func.value.id in ("self", "cls") and c.func.attr in byname:
                     callsites.setdefault(c.func.attr, []).append((q, fn, c))
+                elif isinstance(c, ast.Call) and isinstance(c.func, ast.Name) and c.func.id in modfuncs:
+                    # a helper FUNCTION of the module called by its bare name: the same, whatever kind of helper the piece was moved into
+                    callsites.setdefault(c.func.id, []).append((q, fn, c))
+                elif isinstance(c, ast.Call) and isinstance(c.func, ast.Attribute) and isinstance(c.func.value, ast.Name) and f"{c.func.value.id}.{c.func.attr}" in quals:
+                    callsites.setdefault(c.func.attr, []).append((q, fn, c))        # a static helper called through the class name
         inputs = {q: (set(pnames[q]) if q.split(".")[-1] not in callsites else set()) for q, fn in funcs}
         changed = True
         while changed:
@@ -986,6 +994,11 @@ def _r3(ctx, pkg):
             continue
         gtxt = _guard_text(inst["guards"])
         gkey = "".join(gtxt.split())
+        # the key names the condition, not its spelling: the operands of a flat `or` / `and` in a fixed order
+        for op_ in (" or ", " and "):
+            other = " and " if op_ == " or " else " or "
+            if op_ in gtxt and other not in gtxt and "(" not in gtxt and " if " not in gtxt:
+                gkey = op_.strip().join(sorted("".join(x.split()) for x in gtxt.split(op_)))
         ctx.check(not gtxt, "R3", f"{key}:unconditional installation" + (f"[if {gkey}]" if gtxt else ""), (NF, inst["line"]),
                   "the network's lists are installed unconditionally" if not gtxt else
                   f"the installation is skipped when `{gtxt[:70]}` is false: a network with default (empty) lists inherits the tables of whichever "
@@ -1509,4 +1522,16 @@ MUTANTS += [
     {"name": "accumulator-list-bound-in-the-class-body", "edits": [
         {"file": TL, "old": _TL_CLS, "new": _TALLY_SHARED + _TL_CLS},
         {"file": TL, "old": _RENDER_HEAD, "new": _RENDER_HEAD + "        tally = _Tally()\n        tally.note(proj_name)\n"}], "rules": ["R3"]},
+]
+
+# ---- wave 4: the condition an installation hangs on is named by its operands, not by their order ----
+_INST = "        if self._known_elements or self._known_pseudo_elements:\n            Species.set_known_elements(self._known_elements)\n            Species.set_known_pseudoelements(self._known_pseudo_elements)\n"
+BENIGN += [
+    {"name": "installation-guard-operands-swapped", "file": NF, "old": _INST, "count": 6,
+     "new": "        if self._known_pseudo_elements or self._known_elements:\n            Species.set_known_elements(self._known_elements)\n            Species.set_known_pseudoelements(self._known_pseudo_elements)\n"},
+    {"name": "installation-in-private-helper-with-guard-clause", "edits": [
+        {"file": NF, "old": _INST, "new": "        self._install_known_elements()\n", "count": 6},
+        {"file": NF, "old": "    def find_duplicate_reaction(self, mode: str = None)",
+         "new": "    def _install_known_elements(self):\n        if not (self._known_elements or self._known_pseudo_elements):\n            return\n        Species.set_known_elements(self._known_elements)\n"
+                "        Species.set_known_pseudoelements(self._known_pseudo_elements)\n\n    def find_duplicate_reaction(self, mode: str = None)"}]},
 ]
